@@ -92,22 +92,24 @@ func checkFullStrongSum(p *Prog, r *Report) {
 	gen := p.Func(pkgReceiver, "Transfer", "generateAndSendSums")
 	if gen != nil {
 		full := false
-		allCalls(gen, func(c ssa.CallInstruction) {
-			if !c.Common().IsInvoke() || c.Common().Method.Name() != "Write" {
-				return
-			}
-			a := c.Common().Args[0]
-			if sl, ok := a.(*ssa.Slice); ok {
-				if sl.Low == nil && sl.High != nil {
-					if _, f := loadedField(stripConv(sl.High)); f == clF {
-						a = sl.X
+		for _, u := range p.ModGraph().unitFuncs(gen) {
+			allCalls(u, func(c ssa.CallInstruction) {
+				if !c.Common().IsInvoke() || c.Common().Method.Name() != "Write" {
+					return
+				}
+				a := c.Common().Args[0]
+				if sl, ok := a.(*ssa.Slice); ok {
+					if sl.Low == nil && sl.High != nil {
+						if _, f := loadedField(stripConv(sl.High)); f == clF {
+							a = sl.X
+						}
 					}
 				}
-			}
-			if cc, ok := a.(*ssa.Call); ok && calleeName(cc) == pkgChecksum+".Checksum2" {
-				full = true
-			}
-		})
+				if cc, ok := a.(*ssa.Call); ok && calleeName(cc) == pkgChecksum+".Checksum2" {
+					full = true
+				}
+			})
+		}
 		r.Cond(full, rule, "generateAndSendSums writes the strong sum at the announced length", p.Pos(gen.Pos()), "the strong checksum written per block is not Checksum2(...) whole or cut to sh.ChecksumLength")
 	}
 }
@@ -296,11 +298,16 @@ func checkWholeFileSendsAll(p *Prog, r *Report) {
 		return
 	}
 	var rd *ssa.Call
-	allCalls(sf, func(c ssa.CallInstruction) {
-		if call, ok := c.(*ssa.Call); ok && c.Common().IsInvoke() && c.Common().Method.Name() == "Read" {
-			rd = call
-		}
-	})
+	entry := sf
+	// sendFile and the sender functions it was split into
+	for _, u := range p.ModGraph().unitFuncs(entry) {
+		allCalls(u, func(c ssa.CallInstruction) {
+			if call, ok := c.(*ssa.Call); ok && c.Common().IsInvoke() && c.Common().Method.Name() == "Read" && rd == nil {
+				rd = call
+				sf = u
+			}
+		})
+	}
 	if rd == nil {
 		r.Unk(rule, "sendFile read loop", p.Pos(sf.Pos()), "no direct Read: the whole-file path reads differently now, re-read")
 		return
@@ -338,9 +345,18 @@ func checkWholeFileSendsAll(p *Prog, r *Report) {
 		}
 	})
 	r.Cond(dataW != nil && lenW != nil && InstrDominates(lenW, dataW), rule, "chunk = buf[:n] written after its length", p.Pos(instrPos(rd)), "the chunk written is not the slice of the read buffer up to the count Read returned, or its length does not precede it")
+	if endW == nil && sf != entry {
+		allCalls(entry, func(c ssa.CallInstruction) {
+			if calleeName(c) == "(*"+pkgWire+".Conn).WriteInt32" {
+				if k, ok := constInt(c.Common().Args[1]); ok && k == 0 {
+					endW = c
+				}
+			}
+		})
+	}
 	endOK := endW != nil
 	if endOK {
-		for _, b := range sf.Blocks {
+		for _, b := range endW.Parent().Blocks {
 			if ret, ok := lastInstr(b).(*ssa.Return); ok && isNilConst(retResults(ret)[0]) && !InstrDominates(endW, ret) {
 				endOK = false
 			}
@@ -365,12 +381,20 @@ func checkWholeFileSendsAll(p *Prog, r *Report) {
 					continue
 				}
 				// exit edge b→s: either a return (error) or decided by the read error
-				if _, isRet := lastInstr(s).(*ssa.Return); isRet {
-					continue
-				}
 				okEdge := false
+				if ret, isRet := lastInstr(s).(*ssa.Return); isRet {
+					rs := retResults(ret)
+					if len(rs) > 0 && !isNilConst(rs[len(rs)-1]) {
+						continue // an error return
+					}
+				}
 				for c := b; c != nil && li.body[c]; c = c.Idom() {
 					if ifi, ok := lastInstr(c).(*ssa.If); ok && eV != nil && condMentions(ifi.Cond, eV, 0) {
+						okEdge = true
+					}
+				}
+				for _, ft := range FactsAtBlock(s) {
+					if eV != nil && condMentions(ft.Cond, eV, 0) {
 						okEdge = true
 					}
 				}
